@@ -199,10 +199,18 @@ func (c *fnCtx) run() (err error) {
 		}
 	}
 	for _, d := range c.g.axioms {
-		if fn.Pkg == nil || d.Pkg != fn.Pkg.Pkg.Path() || c.bv {
+		if fn.Pkg == nil || c.bv {
 			continue
 		}
+		if d.Pkg != fn.Pkg.Pkg.Path() {
+			// axioms that come with the assumed contracts of an external package hold wherever a
+			// contract of that package has been (or will be) used: only in functions calling into it
+			if strings.HasPrefix(d.Pkg, "go.starlark.net") || !c.callsPackage(d.Pkg) {
+				continue
+			}
+		}
 		env := c.newEnv(st, st)
+		env.calleePkg = d.Pkg
 		r, err := env.evalBool(d.Text)
 		if err != nil {
 			c.note("axiom %s: %v", d.Pos, err)
@@ -1615,4 +1623,27 @@ func invKind(kind string, ordinal int, label string) string {
 		return fmt.Sprintf("%s:%d:%s", kind, ordinal, label)
 	}
 	return fmt.Sprintf("%s:%d", kind, ordinal)
+}
+
+// callsPackage reports whether the function under analysis calls a function or method of pkg.
+func (c *fnCtx) callsPackage(pkg string) bool {
+	for _, b := range c.fn.Blocks {
+		for _, in := range b.Instrs {
+			ci, ok := in.(ssa.CallInstruction)
+			if !ok {
+				continue
+			}
+			cc := ci.Common()
+			if cc.IsInvoke() {
+				if cc.Method.Pkg() != nil && cc.Method.Pkg().Path() == pkg {
+					return true
+				}
+				continue
+			}
+			if f, ok := cc.Value.(*ssa.Function); ok && f.Pkg != nil && f.Pkg.Pkg.Path() == pkg {
+				return true
+			}
+		}
+	}
+	return false
 }
